@@ -63,10 +63,10 @@ def observe(H, g):
         return G.number_of_nodes(), links
     o["bipn"], o["biplinks"] = get("to_bipartite_graph", bip, (-1, []))
     dag = []
-    for kind in ("all", "immediate"):
+    for kind in ("all", "immediate", "empirical"):
         def dg(kind=kind):
             D = xgi.to_encapsulation_dag(H, subset_types=kind)
-            return {"immediate": kind == "immediate", "nodes": [iE(e) for e in D.nodes],
+            return {"immediate": kind == "immediate", "kind": kind, "nodes": [iE(e) for e in D.nodes],
                     "arcs": [[iE(a), iE(b)] for a, b in D.edges]}
         r = get("to_encapsulation_dag", dg, None)
         if r:
@@ -103,6 +103,24 @@ def run(tier, seed_):
     with ProcessPoolExecutor(max_workers=jobs) as ex:
         for part in ex.map(_worker, [(shapes[i::jobs], i * 100000, seed_) for i in range(jobs) if shapes[i::jobs]]):
             recs += part
+    # larger instances that the bounded enumeration cannot contain: long chordless cycles, one large
+    # hyperedge (many triangles per node), random hypergraphs on 8 nodes
+    rngx = random.Random(seed_ + 99)
+    extra = [[[k, (k + 1) % 6] for k in range(6)], [[k, (k + 1) % 7] for k in range(7)] + [[0, 8]],
+             [list(range(14))] + [[k, 14 + k] for k in range(3)] + [[20]],
+             [[0, 1, 2], [2, 3], [3, 4], [4, 5, 6], [6, 0], [7]]]
+    for _ in range(6 if tier == "quick" else 200):
+        extra.append([sorted(rngx.sample(range(8), rngx.choice([1, 2, 2, 3, 4]))) for _ in range(rngx.randrange(3, 9))])
+    for k, members in enumerate(extra):
+        g = Gamma(*nets.FAMS[k % len(nets.FAMS)])
+        H = xgi.Hypergraph()
+        H.add_nodes_from([g.node(n) for n in sorted({n for m in members for n in m} | {21})])
+        for m in members:
+            H.add_edge([g.node(n) for n in m])
+        st, anom = hg.proj(H, g)
+        o, errs = observe(H, g)
+        recs.append({"rid": f"big{k}", "what": f"larger instance {k} ({g.name}/identity)", "st": st, "obs": o,
+                     "anom": sorted(set(anom + errs))})
     log(f"[C14] observations on {len(recs)} realised TLC-enumerated states ({t():.0f}s)")
 
     def selftest(records, bad):
